@@ -1,4 +1,5 @@
 import SaModel.Lemmas.C09Field
+import SaModel.Lemmas.C09Meta
 /-
 C09 — schemas survive every interchange form unchanged.
 
@@ -211,6 +212,11 @@ theorem C09_schema_roundtrip (esc : Char → Bool) (fs : List Field) (h : ∀ f 
   simp only [printSchema, hp, ↓reduceIte, bind, Except.bind, pure, Except.pure, parseSchema, parseSchemaWith,
     parseFieldsKeyWith, this]
   rfl
+
+/-- the metadata clause of `SchemaOK` in explicit form: every metadata list with strictly increasing keys (a Rust
+`HashMap` on the wire), with or without a strategy entry, is in the normal form `metaOK` asks for -/
+theorem C09_metadata_domain (m : Metadata) (h : sortedMeta m = true) : metaOK m = true :=
+  metaOK_of_sorted m h
 
 /-! ## both top-level forms -/
 
